@@ -513,6 +513,8 @@ def path_values(g, func, target_nodes, exprs, labels=None):
                 e = last[e.id]
                 depth += 1
             vals.append(e)
+        # branch tests that only name a local flag are read as the flag's definition (as q.guards does)
+        conds = [_norm_guard(e, pol) if isinstance(e, ast.AST) else (e, pol) for e, pol in conds]
         out.append((conds, vals, nodes[-1]))
     return out
 
@@ -1113,3 +1115,18 @@ def self_alias_text(func, expr):
                     return ast.Attribute(value=ast.Name(id='self', ctx=ast.Load()), attr=attr, ctx=ast.Load())
             return node
     return norm(T().visit(copy.deepcopy(expr)))
+
+
+def alias_inline(func, expr):
+    """A copy of expr with every local that is defined exactly once as a plain attribute chain (an alias such as
+    `total_size = transfer_future.meta.size`) replaced by that chain; locals holding calls or arithmetic stay."""
+    import copy
+
+    class T(ast.NodeTransformer):
+        def visit_Name(self, node):
+            if isinstance(node.ctx, ast.Load) and node.id not in func.params + func.kwonly:
+                ds = local_defs(func, node.id)
+                if len(ds) == 1 and isinstance(ds[0][1], ast.Attribute) and all(isinstance(x, (ast.Attribute, ast.Name, ast.expr_context)) for x in ast.walk(ds[0][1])):
+                    return copy.deepcopy(ds[0][1])
+            return node
+    return T().visit(copy.deepcopy(expr)) if isinstance(expr, ast.AST) else expr
